@@ -65,6 +65,8 @@ def _bad_key(el):
 def rand_arg(rng, depth=3, bad_at=None, level=0):
     """bad_at: depth level at which to place an invalid object (None = never)."""
     if bad_at is not None and level == bad_at:
+        if rng.random() < 0.2:
+            return {"k": "inst", "has": None}  # same class as the valid "inst" values, but without any protocol method
         return {"k": "bad", "t": rng.choice(["object", "dict", "bytes", "set", "range", "complex", "type"])}
     r = rng.random()
     if bad_at is not None or (depth > 0 and r < 0.3):
@@ -88,8 +90,10 @@ def rand_arg(rng, depth=3, bad_at=None, level=0):
         return {"k": "dep", "name": "d", "version": "1.0"}
     if r < 0.84:
         return {"k": "meta"}
-    if r < 0.92:
+    if r < 0.88:
         return {"k": "obj", "s": "<u>o</u>"}
+    if r < 0.93:
+        return {"k": "inst", "has": rng.choice(["tagify", "repr"])}
     return {"k": "tf", "ret": "list", "c": [{"k": "text", "s": "p"}]}
 
 
@@ -102,6 +106,8 @@ def shape_of(a):
         return "%s/depth%d%s" % (a["t"], min(d, 6), "/bad" if _has_bad(a) else "")
     if k == "bad":
         return "bad:" + a["t"]
+    if k == "inst":
+        return "instance-level:" + str(a["has"])
     if k == "num":
         return "num:" + type(gen._num(a["v"])).__name__
     if k == "text":
@@ -120,6 +126,8 @@ def _depth(a):
 def _has_bad(a):
     if a["k"] == "dup":
         return _has_bad(a["c"])
+    if a["k"] == "inst":
+        return a["has"] is None
     return a["k"] == "bad" or (a["k"] == "list" and any(_has_bad(c) for c in a["c"]))
 
 
